@@ -230,6 +230,32 @@ def install(plan):
         n = len(sized[0]) if sized else 0
         log("worker_start", w=w, first=None, n=n)
         proxy = QProxy(qu, w, n)
+        in_aligner = [f for f in faults if f["worker"] == w and f["point"].startswith("in_aligner_")]
+        if in_aligner:
+            # fault point inside the alignment itself: the k-th aligner call of this worker raises (what
+            # pywfa does for an empty pattern, what an allocation failure looks like)
+            orig_aligner = getattr(R, "WavefrontAligner", None)
+            if orig_aligner is None:
+                log("hook_missing", name="WavefrontAligner")
+            else:
+                calls = [0]
+
+                class FaultyAligner:
+                    def __init__(self, *a, **k):
+                        self._real = orig_aligner(*a, **k)
+
+                    def __call__(self, *a, **k):
+                        k_call = calls[0]
+                        calls[0] += 1
+                        for f in in_aligner:
+                            if f["point"] == f"in_aligner_{k_call}":
+                                die(f["kind"], qu)
+                        return self._real(*a, **k)
+
+                    def __getattr__(self, name):
+                        return getattr(self._real, name)
+
+                R.WavefrontAligner = FaultyAligner
         target(*[proxy if x is qu else x for x in args])
         for fault in faults:
             if fault["worker"] == w and fault["point"] == "after_sentinel":
@@ -254,6 +280,10 @@ def install(plan):
             os._exit(3)
         elif kind == "exception":
             raise RuntimeError("injected worker failure")
+        elif kind == "value_error":
+            raise ValueError("pattern is None")
+        elif kind == "memory_error":
+            raise MemoryError()
         elif kind == "sys_exit_2":
             sys.exit(2)
         time.sleep(30)
@@ -372,8 +402,12 @@ def main(argv):
             pass
     probes_ok = install(spec["plan"])
     log("driver_start", argv=spec["argv"])
-    o = run_cli(spec["argv"])
+    o = run_cli(spec["argv"], closed_stderr=True if spec["plan"].get("stderr_closed") else None)
     log("driver_end", outcome=o.kind)
+    if spec.get("stdout_file"):
+        # the command was run without -o: what it wrote to standard output is its output file
+        with open(spec["stdout_file"], "w") as f:
+            f.write(o.stdout)
     res = {"outcome": o.to_json(), "tb": o.tb[-1500:], "probes_attached": bool(probes_ok), "stale": State.stale,
            "errors": [m for lv, m in o.log if lv == "ERROR"][-3:]}
     with open(argv[1], "w") as f:
